@@ -203,7 +203,7 @@ TYPE tb_enum = ENUMERATION OF (p, q); END_TYPE;
 ENTITY eb; s : ta_enum; END_ENTITY;
 END_SCHEMA;
 """
-MS_AST = [("aa_schema", ["type ta_enum enumeration_ 0 0", "ent ea 1"]), ("bb_schema", ["type tb_enum enumeration_ 0 0", "ent eb 1"])]
+MS_AST = [("aa_schema", ["type ta_enum enumeration_ 0 1", "ent ea 1"]), ("bb_schema", ["type tb_enum enumeration_ 0 1", "ent eb 1"])]
 TWO_TEXT = "SCHEMA first_schema;\nENTITY ea; END_ENTITY;\nEND_SCHEMA;\nSCHEMA second_schema;\nENTITY eb; END_ENTITY;\nEND_SCHEMA;\n"
 TWO_AST = [("first_schema", ["ent ea 0"]), ("second_schema", ["ent eb 0"])]
 
@@ -317,7 +317,7 @@ def run(ctx):
         cases.append(Case("corpus:" + os.path.basename(p), d["express"], d.get("stem", "schema"), d.get("subdir", ""),
                           ast=[(n, ds) for n, ds in d["ast"]]))
     cases += fixed_cases()
-    cases += generated_cases(ctx, 14 if quick else 300)
+    cases += generated_cases(ctx, 40 if quick else 300)
     cases += shipped_cases(b, quick)
     t0 = time.time()
     for i, c in enumerate(cases):
